@@ -28,10 +28,18 @@ func main() {
 	repo, _ := git.Init(memory.NewStorage(), nil)
 	langsPool := []string{"Go", "Python", "", "C++"}
 	stats := map[string]int{}
+	var prevDA *leaves.DevsAnalysis
 	for it := 0; it < count; it++ {
 		rng := rand.New(rand.NewSource(seed*1000003 + int64(it)))
 		ce := rng.Intn(2) == 0
 		da := &leaves.DevsAnalysis{}
+		if prevDA != nil && rng.Intn(3) == 0 {
+			// a second Configure + Initialize on an object that has already counted commits starts from scratch (the
+			// same commit hashes come back in every case: a merge seen in an earlier history must not count as seen)
+			da = prevDA
+			stats["cases_on_a_reinitialized_object"]++
+		}
+		prevDA = da
 		da.Configure(map[string]interface{}{leaves.ConfigDevsConsiderEmptyCommits: ce, items.FactTickSize: 24 * time.Hour,
 			identity.FactIdentityDetectorReversedPeopleDict: []string{"a", "b", "c"}})
 		if err := da.Initialize(repo); err != nil {
